@@ -1,11 +1,11 @@
 CONFIG = {
-    "id": "C03",
-    "coq_targets": ["Props/C03.v", "Model/SimCheck.v"],
-    "prop_files": ["Props/C03.v"],
+    "id": "C11",
+    "coq_targets": ["Props/C11.v", "Model/SimCheck.v"],
+    "prop_files": ["Props/C11.v"],
     "gen": [],
     "components": [{
         "name": "sim", "modules": ["Base.NumOps", "Model.Turn", "Model.Sim", "Model.SimCheck"],
-        "check": "check_case", "monitor": "monitor_c03", "model_out": "monitor_detail",
+        "check": "check_case", "monitor": "monitor_c11", "model_out": "monitor_detail",
         "case_type": "case", "ops_path": None, "mismatch_is_violation": False,
         "n_quick": 300, "n_thorough": 12000, "shard": 100,
     }],
@@ -24,13 +24,10 @@ CONFIG = {
                 "the turn manager part is Model/Turn.v at binary64 (property C02)"],
     "assumptions": ["content uses the engine API legally: qualified attacks and EndAttack only from action / ult / insert bodies"],
     "manifest": {
-        "level_text": "Kernel-checked theorem: every terminated run of the executable whole-simulation model (all configs, all "
-                      "content scripts, all decision sequences, all fuel) produces a trace accepted by the lifecycle-protocol "
-                      "stack automaton; the model's complete trace and result are compared exactly with the real simulator on "
-                      "generated scripted battles, and the automaton is also run as a monitor on the real traces.",
+        "level_text": "Kernel-checked theorems about the model, for all configs, scripts and decision sequences: the action started for an alive character is the decided type or the default attack when the skill's cost is not available (with the decision and the fallback recorded), a skill needs its cost, the primary target is what the decided rule selects (First = head of the living candidates of the right side; LowestHP / LowestHPRatio = a minimal candidate given non-NaN HP values; a named unit only if alive and of the right class), skill points stay in [0,5], an ultimate is queued only for a character the script asked for whose energy is full and queuing zeroes the energy. The same clauses are evaluated as a trace monitor on every real run, with decisions recorded by a wrapper around logic.Eval.",
         "level_note": "Coq kernel; hand-written model Model/Sim.v tied by whole-trace correspondence; content is scripted harness "
                       "content registered through the exported Register functions; internal/* content is not modelled.",
-        "technique": "Coq proof (Hoare-style segment lemmas against a protocol automaton) + correspondence + trace monitor",
-        "design_ref": "DESIGN.md section 7, C03",
+        "technique": 'Coq proofs (decision / target-rule / SP / ult lemmas) + whole-trace correspondence + decision monitor',
+        "design_ref": "DESIGN.md section 7, C11",
     },
 }
